@@ -292,7 +292,16 @@ func c03Layout(r *c03Rec) string {
 	b.Grow(len(r.Seq)*5/4 + 4096)
 	n := len(r.Seq)
 	// LOCUS: 13-28 name, 30-40 length, 42-43 bp, 48-53 molecule, 56-63 topology, 65-67 division, 69-79 date
-	b.WriteString(fmt.Sprintf("LOCUS       %-16s %11d bp    %-6s  %-8s %s %s\n", r.Name, n, r.Mol, r.Topo, r.Div, r.Date))
+	// A name longer than the 16 columns takes its room from the right-justified
+	// length field (one blank always separates them), so that "bp" and the
+	// columns after it stay in place as long as the length still fits.
+	lenWidth := 11 - (len(r.Name) - 16)
+	if len(r.Name) <= 16 {
+		lenWidth = 11
+	} else if lenWidth < 1 {
+		lenWidth = 1
+	}
+	b.WriteString(fmt.Sprintf("LOCUS       %-16s %*d bp    %-6s  %-8s %s %s\n", r.Name, lenWidth, n, r.Mol, r.Topo, r.Div, r.Date))
 	c03Block(&b, "DEFINITION", r.Def, r.Width)
 	c03Block(&b, "ACCESSION", r.Acc, r.Width)
 	c03Block(&b, "VERSION", r.Ver, r.Width)
@@ -501,6 +510,24 @@ func c03AllTexts(r *c03Rec) []*[]string {
 	return ts
 }
 
+// c03EmptyTexts: the keyword texts of the record that are empty (the six fixed
+// keywords and the extra keyword blocks; an absent reference field is not a
+// keyword without text, it is simply not part of the record).
+func c03EmptyTexts(r *c03Rec) []*[]string {
+	var out []*[]string
+	for _, t := range []*[]string{&r.Def, &r.Acc, &r.Ver, &r.Kw, &r.Src, &r.Org} {
+		if c03J(*t) == "" {
+			out = append(out, t)
+		}
+	}
+	for i := range r.Others {
+		if c03J(r.Others[i].Text) == "" {
+			out = append(out, &r.Others[i].Text)
+		}
+	}
+	return out
+}
+
 // slash positions: for every quoted qualifier, the word indexes that start a
 // continuation line with '/'.
 func c03ContSlashWords(q *c03Qual, width int) map[int]bool {
@@ -589,12 +616,25 @@ func c03Axes() []c03Axis {
 			func(r *c03Rec) bool { return len(r.Name) == d },
 			func(r *c03Rec) { r.Name = "locus1" }))
 	}
+	// a name that does not fit the historical 16-column name field (columns 13-28)
+	ax = append(ax, c03RecAxis("long-locus-name",
+		func(r *c03Rec) bool { return len(r.Name) > 16 },
+		func(r *c03Rec) { r.Name = "locus1" }))
 	for _, m := range []string{"mRNA", "tRNA", "rRNA"} {
 		m := m
 		ax = append(ax, c03RecAxis(strings.ToLower(m)+"-molecule",
 			func(r *c03Rec) bool { return r.Mol == m },
 			func(r *c03Rec) { r.Mol = "DNA" }))
 	}
+	// a keyword the record carries with no text: DEFINITION ... ORGANISM or an
+	// extra keyword block (Meta.Other entry) whose text is empty
+	ax = append(ax, c03RecAxis("empty-keyword-text",
+		func(r *c03Rec) bool { return len(c03EmptyTexts(r)) > 0 },
+		func(r *c03Rec) {
+			for _, t := range c03EmptyTexts(r) {
+				*t = []string{"x"}
+			}
+		}))
 	ax = append(ax,
 		c03RecAxis("circular-topology", func(r *c03Rec) bool { return r.Topo == "circular" }, func(r *c03Rec) { r.Topo = "linear" }),
 		c03RecAxis("no-topology", func(r *c03Rec) bool { return r.Topo == "" }, func(r *c03Rec) { r.Topo = "linear" }),
@@ -1220,6 +1260,7 @@ type c03Profile struct {
 	AllowNoTopo bool
 	MaxLen      int
 	ManyOthers  bool
+	EmptyTexts  bool // structured records only: ORGANISM or an extra keyword block may be given with no text
 }
 
 func c03RandLen(rng *rand.Rand, max int) int {
@@ -1262,6 +1303,8 @@ func c03RandRec(rng *rand.Rand, p c03Profile) c03Rec {
 		r.Name = c03Name(rng, 16)
 	case 3, 4:
 		r.Name = c03Name(rng, 3+rng.Intn(13))
+	case 5:
+		r.Name = c03Name(rng, 17+rng.Intn(24)) // 17..40: longer than the 16-column name field
 	}
 	r.Mol = c03Pick(rng, c03Mols)
 	if rng.Intn(2) == 0 {
@@ -1381,6 +1424,21 @@ func c03RandRec(rng *rand.Rand, p c03Profile) c03Rec {
 			f.Quals = []c03Qual{c03MakeQual(rng, "note", c03VPlain, r.Width)}
 		}
 		r.Feats = append(r.Feats, f)
+	}
+	if p.EmptyTexts {
+		switch rng.Intn(8) {
+		case 0:
+			r.Org = nil // SOURCE stated, ORGANISM empty
+		case 1:
+			if len(r.Others) > 0 {
+				r.Others[rng.Intn(len(r.Others))].Text = nil
+			}
+		case 2:
+			r.Org = nil
+			for i := range r.Others {
+				r.Others[i].Text = nil
+			}
+		}
 	}
 	return r
 }
@@ -2100,7 +2158,7 @@ type c03Clause struct {
 func c03LongMeta(r *poly.Sequence) bool {
 	m := r.Meta
 	for _, s := range []string{m.Definition, m.Accession, m.Version, m.Keywords, m.Source, m.Organism} {
-		if len(s) > 68 {
+		if len(s) > 68 || s == "" {
 			return true
 		}
 	}
@@ -2270,6 +2328,14 @@ func c03Eval(key string, f *c03File, viaFile string) []c03Out {
 	return outs
 }
 
+// locus name lengths of the enumeration: every length up to 24 (16 is the
+// width of the historical name field, columns 13-28), then 32 and 40.
+var c03NameLengths = []int{1, 2, 3, 4, 5, 6, 7, 8, 9, 10, 11, 12, 13, 14, 15, 16, 17, 18, 19, 20, 21, 22, 23, 24, 32, 40}
+
+// which keyword texts are empty in the records of the empty-text enumeration
+var c03EmptyKinds = []string{"ORGANISM", "SOURCE", "SOURCE+ORGANISM", "DEFINITION", "ACCESSION", "VERSION", "KEYWORDS",
+	"DEFINITION+ACCESSION+VERSION+KEYWORDS+SOURCE+ORGANISM", "COMMENT", "DBLINK", "COMMENT+DBLINK", "ORGANISM+COMMENT"}
+
 func TestVerifC03(t *testing.T) {
 	nRand := 300
 	if verifThorough() {
@@ -2279,14 +2345,14 @@ func TestVerifC03(t *testing.T) {
 	prof := c03Profile{MaxMeta: 2000, MaxQuals: 8, MaxLen: 100000, ManyOthers: true}
 
 	src := "records r from three sources: (a) Parse of a file laid out by an independent NCBI-layout writer, (b) structured poly.Sequence with GbkLocationString set, (c) structured with SequenceLocation only (locations a..b, complement, join, complement(join), 5' partial); "
-	shapeDom := "shape enumeration: sequence length {7,12,345,1234,12345,100000} x qualifiers per feature {0,1,2,8} x value shape {plain,slash,equals,wrap,empty} x source {a,b,c}, two features, one reference with and without REMARK, 0..3 extra keyword blocks, DEFINITION up to 2000 characters in every third case; locus names of 1..16 characters, 4 molecule types x {linear,circular,none}; "
-	randDom := fmt.Sprintf("plus %d seeded-random records (sources cycling a,b,c): length 1..100000 (digit count uniform), 0..40 features with 0..8 qualifiers (values over printable ASCII without the double quote, single-spaced words, up to 230 characters), 0..5 references with optional TITLE/PUBMED/REMARK, COMMENT/DBLINK/PROJECT/SEGMENT blocks, metadata texts up to 2000 characters; every 50th random case goes through Write and Read on a temporary file; ", nRand)
+	shapeDom := "shape enumeration: sequence length {7,12,345,1234,12345,100000} x qualifiers per feature {0,1,2,8} x value shape {plain,slash,equals,wrap,empty} x source {a,b,c}, two features, one reference with and without REMARK, 0..3 extra keyword blocks, DEFINITION up to 2000 characters in every third case; locus names of 1..24, 32 and 40 characters (16 = width of the name field in columns 13-28) x length {7,12,345} x source {a,b,c}, 4 molecule types x {linear,circular,none}; structured records (sources b, c) that carry a keyword with no text: {" + strings.Join(c03EmptyKinds, ", ") + "} empty (COMMENT, DBLINK = Meta.Other entries with empty text) x 0 or 1 reference x with or without a filled extra keyword; "
+	randDom := fmt.Sprintf("plus %d seeded-random records (sources cycling a,b,c): length 1..100000 (digit count uniform), locus name 1..40 characters (17..40 in one case of twelve), in structured records ORGANISM and/or an extra keyword text empty in up to three cases of eight, 0..40 features with 0..8 qualifiers (values over printable ASCII without the double quote, single-spaced words, up to 230 characters), 0..5 references with optional TITLE/PUBMED/REMARK, COMMENT/DBLINK/PROJECT/SEGMENT blocks, metadata texts up to 2000 characters; every 50th random case goes through Write and Read on a temporary file; ", nRand)
 	runs := []*verifRun{
 		newVerifRun("C03", "io/genbank.Build/determinism", src+shapeDom+randDom+fmt.Sprintf("each record built %d times (64 times above 20000 letters), all outputs byte-identical; non-trivial = at least 2 Meta.Other keys or a feature with at least 2 qualifiers", c03Builds)),
 		newVerifRun("C03", "io/genbank.Build/post/roundtrip-no-panic", src+shapeDom+randDom+"Build(r) and Parse(Build(r)) return without a panic; every case counts; the field clauses below are evaluated on the cases that return"),
 		newVerifRun("C03", "io/genbank.Build/post/roundtrip-sequence", src+shapeDom+randDom+"Parse(Build(r)).Sequence == r.Sequence; every case counts"),
 		newVerifRun("C03", "io/genbank.Build/post/roundtrip-locus", src+shapeDom+randDom+"Parse(Build(r)) equals r in locus name, length, molecule type, topology, division, date; every case counts"),
-		newVerifRun("C03", "io/genbank.Build/post/roundtrip-meta", src+shapeDom+randDom+"Parse(Build(r)) equals r in Definition, Accession, Version, Keywords, Source, Organism and the Other map; non-trivial = a text longer than 68 characters or an Other key"),
+		newVerifRun("C03", "io/genbank.Build/post/roundtrip-meta", src+shapeDom+randDom+"Parse(Build(r)) equals r in Definition, Accession, Version, Keywords, Source, Organism and the Other map; non-trivial = a text longer than 68 characters, a keyword with empty text or an Other key"),
 		newVerifRun("C03", "io/genbank.Build/post/roundtrip-references", src+shapeDom+randDom+"Parse(Build(r)) equals r in every reference's Index, Range, Authors, Title, Journal, PubMed, Remark; non-trivial = at least one reference"),
 		newVerifRun("C03", "io/genbank.Build/post/roundtrip-features", src+shapeDom+randDom+"Parse(Build(r)) equals r in feature count, order, keys, locations (text where r has text, structure otherwise) and qualifier maps; non-trivial = at least one feature"),
 		newVerifRun("C03", "io/genbank.Build/post/layout", src+shapeDom+randDom+"an independent column-strict reader (keyword field columns 1-12, sub-keywords indented 2-3, continuation lines blank in 1-12, FEATURES header, key column 6, location/qualifier column 22, ORIGIN rows '%9d' + six groups of ten, // last) recovers every field of r from Build(r); every case counts"),
@@ -2348,9 +2414,9 @@ func TestVerifC03(t *testing.T) {
 		mode       int
 	}
 	var plains []plain
-	for nl := 1; nl <= 16; nl++ {
+	for _, nl := range c03NameLengths {
 		for _, n := range []int{7, 12, 345} {
-			for mode := 0; mode < 2; mode++ {
+			for mode := 0; mode < 3; mode++ {
 				plains = append(plains, plain{n, nl, "DNA", "linear", mode})
 			}
 		}
@@ -2384,11 +2450,60 @@ func TestVerifC03(t *testing.T) {
 		}
 		return c03Eval(fmt.Sprintf("plain len=%d name-length=%d %s %s source=%s", p.n, p.nameLen, p.mol, topo, c03ModeNames[p.mode]), &f, "")
 	})
+	// structured records that carry a keyword with no text
+	type empty struct {
+		what        string
+		mode, nref  int
+		filledOther bool
+	}
+	var empties []empty
+	for _, what := range c03EmptyKinds {
+		for mode := c03ModeCached; mode <= c03ModeUncached; mode++ {
+			for nref := 0; nref <= 1; nref++ {
+				for _, fo := range []bool{false, true} {
+					empties = append(empties, empty{what, mode, nref, fo})
+				}
+			}
+		}
+	}
+	c03Parallel(len(empties), runs, func(i int) []c03Out {
+		e := empties[i]
+		rng := c03Rng(4, i)
+		r := c03ShapeRec(rng, 345, 1, 1, c03VPlain, 1)
+		if e.nref == 1 {
+			r.Refs = []c03Ref{{Authors: []string{c03Text(rng, c03MetaAlpha, 30)}, Title: []string{c03Text(rng, c03MetaAlpha, 40)}, Journal: []string{c03Text(rng, c03MetaAlpha, 30)}}}
+		}
+		if e.filledOther {
+			r.Others = append(r.Others, c03KV{"PROJECT", []string{"GenomeProject:" + c03Word(rng, c03Digits, 3, 5)}, true})
+		}
+		for _, w := range strings.Split(e.what, "+") {
+			switch w {
+			case "DEFINITION":
+				r.Def = nil
+			case "ACCESSION":
+				r.Acc = nil
+			case "VERSION":
+				r.Ver = nil
+			case "KEYWORDS":
+				r.Kw = nil
+			case "SOURCE":
+				r.Src = nil
+			case "ORGANISM":
+				r.Org = nil
+			default: // an extra keyword block without text
+				r.Others = append(r.Others, c03KV{w, nil, w == "DBLINK"})
+			}
+		}
+		f := c03File{Recs: []c03Rec{r}, FinalNL: true}
+		c03SetMode(&f, e.mode)
+		return c03Eval(fmt.Sprintf("empty-text=%s references=%d filled-extra-keyword=%v source=%s", e.what, e.nref, e.filledOther, c03ModeNames[e.mode]), &f, "")
+	})
 	c03Parallel(nRand, runs, func(i int) []c03Out {
 		rng := c03Rng(3, i)
 		mode := i % 3
 		p := prof
 		p.AllowNoTopo = mode != c03ModeImage
+		p.EmptyTexts = mode != c03ModeImage
 		f := c03File{Recs: []c03Rec{c03RandRec(rng, p)}, FinalNL: true}
 		c03SetMode(&f, mode)
 		via := ""
